@@ -458,7 +458,7 @@ class MQWorld:
                               f"#{tag} was dead-lettered by {op} after {rb} deliveries with max_redeliveries={self.M}; "
                               f"ops {self.ops}")
                     return
-                if rb >= self.M + 1 and not dl:
+                if rb >= self.M and not dl:
                     self.fail(f"redelivery-limit/not-dead-lettered/{op}",
                               f"#{tag} failed ({op}) after {rb} deliveries with max_redeliveries={self.M} but is "
                               f"{self.pub_state(tag)}, not dead-lettered; ops {self.ops}")
